@@ -185,7 +185,7 @@ def pin_rule(ctx):
     ctx.ob('C05-PIN.ast_cache-keyed-by-pinned-id', dec, ks[0] if ks else dec.node, ok, '' if ok else 'decompile() keys ast_cache by %s' % [norm(s.value) for s in ks])
 
 
-def fixed_rule(ctx):
+def fixed_rule(ctx, prefix='C05-FIXED'):
     repo, cg = ctx.repo, ctx.cg
     ST = 'pony.orm.sqltranslation'
     mod = repo.mod(ST)
@@ -203,16 +203,16 @@ def fixed_rule(ctx):
             n += 1
             recv = r.value.value
             ok, why = is_root_translator(scope, recv)
-            ctx.ob('C05-FIXED.value-dependent-translation-uses-root-translator', fn, r, ok,
+            ctx.ob(prefix + '.value-dependent-translation-uses-root-translator', fn, r, ok,
                    '' if ok else '%s is not the root translator (%s): inside a subquery the recorded value lands on a sub-translator that '
                    'Query._get_translator never compares, so the SQL cached for the first value is reused for every later value' % (norm(recv), why), node=r)
         for r in reads:
             rn = cfg_node_of(g, r)
             sn = [x for s in stores if norm(s.value.value) == norm(r.value.value) and norm(s.slice) == norm(r.slice) for x in cfg_node_of(g, s)]
             ok = bool(sn) and all(g.must_pass_after(x, sn, exits=[g.exit]) for x in rn)
-            ctx.ob('C05-FIXED.value-read-is-recorded', fn, r, ok,
+            ctx.ob(prefix + '.value-read-is-recorded', fn, r, ok,
                    '' if ok else 'the concrete value %s is used for translation but not recorded in fixed_param_values[%s] on every path' % (norm(r), norm(r.slice)), node=r)
-    ctx.floor('C05-FIXED', n, 4, 'value-dependent translation sites')
+    ctx.floor(prefix, n, 4, 'value-dependent translation sites')
     gt = repo.fn('pony.orm.core', 'Query._get_translator')
     g = cg.cfg(gt)
     loops = [x for x in g.nodes if x.kind == 'iter' and 'fixed_param_values' in norm(x.ast.iter)]
@@ -234,7 +234,7 @@ def fixed_rule(ctx):
             if not g.must_pass_after(t, rets, exits=[g.exit]) and False: pass
             r2 = g.reach(ts, avoid=rets)
             if g.exit.id in r2: ok = False; detail = 'a changed fixed parameter value does not discard the cached translator'
-    ctx.ob('C05-FIXED.cached-translator-revalidated', gt, loops[0].ast if loops else gt.node, ok, detail)
+    ctx.ob(prefix + '.cached-translator-revalidated', gt, loops[0].ast if loops else gt.node, ok, detail)
     stale_attrs.add('fixed_param_values')
     stale_attrs.discard('filter_num')
     # key of the constructed-SQL cache
@@ -262,7 +262,7 @@ def fixed_rule(ctx):
             cover[a] |= (cands or set())
     for a in sorted(stale_attrs):
         ok = bool(cover[a] & key_attrs)
-        ctx.ob('C05-FIXED.staleness-inputs-are-in-sql-key', cs, keycalls[0], ok,
+        ctx.ob(prefix + '.staleness-inputs-are-in-sql-key', cs, keycalls[0], ok,
                '' if ok else '_get_translator rebuilds the translator when translator.%s changes, but the key of _constructed_sql_cache contains '
                'none of %s: the rebuilt translator maps to the same key and reuses SQL generated for the old %s' % (a, sorted(cover[a]), a),
                expected='sql_key includes translator.%s (or an attribute updated together with it)' % a).key += '::' + a
@@ -270,7 +270,7 @@ def fixed_rule(ctx):
     ctx.need(cc, 'C05: construct_sql_ast call not found')
     for a in list(cc[0].args) + [k.value for k in cc[0].keywords]:
         ok = norm(a) in keytxt
-        ctx.ob('C05-FIXED.sql-key-contains-construct-args', cs, a, ok,
+        ctx.ob(prefix + '.sql-key-contains-construct-args', cs, a, ok,
                '' if ok else 'construct_sql_ast(... %s ...) shapes the SQL but %s is not part of sql_key' % (norm(a), norm(a)), node=a)
 
 
